@@ -8,6 +8,7 @@ import (
 	"encoding/json"
 	"errors"
 	"fmt"
+	"hash/fnv"
 	"os"
 	"path/filepath"
 	"sort"
@@ -78,6 +79,8 @@ type quoteSpec struct {
 	MLen   int    `json:"mlen,omitempty"`
 	Seed   int    `json:"seed,omitempty"`
 	Entry  bool   `json:"entry,omitempty"`
+	// Pay names the byte shape of the cert-table entry (see payShapes; "" = plain text).
+	Pay string `json:"pay,omitempty"`
 }
 
 func (q quoteSpec) String() string {
@@ -92,6 +95,9 @@ func (q quoteSpec) String() string {
 	}
 	if q.Entry {
 		s += "+entry"
+		if q.Pay != "" {
+			s += "(" + payLabel(q.Pay) + ")"
+		}
 	}
 	return s
 }
@@ -106,6 +112,9 @@ type evtSpec struct {
 	// Plat, when set, is the PLATFORM manufacturer string (default: same as the firmware one). The
 	// filter is on the firmware manufacturer, so this string must not influence anything.
 	Plat string `json:"plat,omitempty"`
+	// Pay names the byte shape of the payload of a raw locator / of the variable a var-ok locator
+	// points to (see payShapes; "" = plain text).
+	Pay string `json:"pay,omitempty"`
 }
 
 // fwMan is the firmware manufacturer string the event carries.
@@ -195,9 +204,11 @@ func renderQuote(q quoteSpec, who string) ([]byte, quoteTruth) {
 	}
 	tr.M = measurementBytes(q.Seed, q.MLen)
 	if q.Entry {
-		tr.Entry = []byte(fmt.Sprintf("ENTRY of the %s quote (seed %d, %s)", who, q.Seed, q.String()))
+		plain := q
+		plain.Pay = ""
+		tr.Entry = shapePayload([]byte(fmt.Sprintf("ENTRY of the %s quote (seed %d, %s)", who, q.Seed, plain.String())), q.Pay)
 	}
-	key := who + "|" + q.String() + fmt.Sprint(q.Seed)
+	key := who + "|" + q.String() + fmt.Sprint(q.Seed) + "|" + q.Pay
 	cached, ok := quoteCache[key]
 	var out []byte
 	switch q.Kind {
@@ -299,7 +310,10 @@ func validQuote(q quoteSpec) quoteSpec {
 	case "none", "empty", "garbage":
 		return quoteSpec{Kind: q.Kind, Seed: q.Seed}
 	case "certtable":
-		return quoteSpec{Kind: q.Kind, Seed: q.Seed, MLen: fullLength, Entry: q.Entry}
+		if !q.Entry {
+			q.Pay = ""
+		}
+		return quoteSpec{Kind: q.Kind, Seed: q.Seed, MLen: fullLength, Entry: q.Entry, Pay: q.Pay}
 	case "snp":
 		if q.Format != "tpm" && q.Format != "snpproto" && q.Format != "report" {
 			q.MLen = fullLength
@@ -312,6 +326,9 @@ func validQuote(q quoteSpec) quoteSpec {
 			q.MLen = fullLength
 		}
 		q.Entry = false
+	}
+	if !q.Entry {
+		q.Pay = ""
 	}
 	return q
 }
@@ -331,6 +348,8 @@ type srcEnv struct {
 	// what logPath currently holds (rendering of the logSpec), so that consecutive cases with the same
 	// log do not rewrite the file
 	onDisk string
+	// the shaped variables written so far (file name -> true)
+	shaped map[string]bool
 }
 
 func newEnv(t testing.TB) *srcEnv {
@@ -358,6 +377,42 @@ func varPoolEntry(i int) (string, uuid.UUID) {
 func varPayload(i int) []byte {
 	n, g := varPoolEntry(i)
 	return []byte(fmt.Sprintf("VARIABLE payload of %s-%s", n, g))
+}
+
+// rawPayloadOf / varPayloadOf: what a raw locator holds / what the variable of a var-ok locator
+// holds after its 4 attribute bytes, in the byte shape the event names.
+func rawPayloadOf(s *evtSpec) []byte { return shapePayload(rawData(s.Idx), s.Pay) }
+func varPayloadOf(s *evtSpec) []byte { return shapePayload(varPayload(s.Idx), s.Pay) }
+
+// varNameOf is the name of the variable a var-ok locator points to: a pool name, with a suffix that
+// identifies the payload shape when there is one (each shape lives in a variable of its own).
+func varNameOf(s *evtSpec) (string, uuid.UUID) {
+	n, g := varPoolEntry(s.Idx)
+	if s.Pay != "" {
+		h := fnv.New32a()
+		h.Write([]byte(s.Pay))
+		n = fmt.Sprintf("%s.%s.%08x", n, payLabel(s.Pay), h.Sum32())
+	}
+	return n, g
+}
+
+// ensureVar writes the variable of a shaped var-ok locator into the scratch efivarfs.
+func (e *srcEnv) ensureVar(s *evtSpec) {
+	if s.Kind != "var-ok" || s.Pay == "" {
+		return
+	}
+	n, g := varNameOf(s)
+	file := n + "-" + g.String()
+	if e.shaped[file] {
+		return
+	}
+	if e.shaped == nil {
+		e.shaped = map[string]bool{}
+	}
+	if err := os.WriteFile(filepath.Join(e.efi, file), append([]byte{7, 0, 0, 0}, varPayloadOf(s)...), 0o644); err != nil {
+		panic("harness: " + err.Error())
+	}
+	e.shaped[file] = true
 }
 
 const otherManufacturer = "Other Corp"
@@ -394,9 +449,9 @@ func buildEvent(s evtSpec, pos int) *eventlog.TCGPCREvent2 {
 	evType := uint32(eventlog.EvNoAction)
 	switch s.Kind {
 	case "raw":
-		sp.RIMLocatorType, sp.RIMLocator.Data = eventlog.RIMLocationRaw, rawData(s.Idx)
+		sp.RIMLocatorType, sp.RIMLocator.Data = eventlog.RIMLocationRaw, rawPayloadOf(&s)
 	case "var-ok":
-		n, g := varPoolEntry(s.Idx)
+		n, g := varNameOf(&s)
 		sp.RIMLocatorType, sp.RIMLocator.Data = eventlog.RIMLocationVariable, variableLocator(g, n)
 	case "var-missing":
 		_, g := varPoolEntry(s.Idx)
@@ -422,12 +477,23 @@ func buildEvent(s evtSpec, pos int) *eventlog.TCGPCREvent2 {
 }
 
 func (e *srcEnv) logLocation(l logSpec) string {
+	for i := range l.Events {
+		e.ensureVar(&l.Events[i])
+	}
 	if l.Mode == "garbage" || l.Mode == "emptyfile" || l.Mode == "valid" {
 		b, _ := json.Marshal(l)
 		if e.onDisk == string(b) {
 			return e.logPath
 		}
-		e.onDisk = string(b)
+		// only a completed write is remembered: a harness fault below must not leave the previous
+		// case's log standing in for this one when the case is run again
+		e.onDisk = ""
+		defer func(key string) {
+			if r := recover(); r != nil {
+				panic(r)
+			}
+			e.onDisk = key
+		}(string(b))
 	}
 	switch l.Mode {
 	case "none":
@@ -648,7 +714,9 @@ func premiseEntry(q quoteSpec, tr quoteTruth, raw []byte) (entry []byte, how str
 type logTruth struct {
 	sel       string   // what the event log offers first: none | unreadable | raw | var-ok | var-bad | var-noreader | local | uri | nomatch
 	raws      [][]byte // payloads of the visible selected raw locators
+	rawPays   []string // their byte shapes (labels)
 	varOKs    [][]byte // payloads of the visible selected variable locators that resolve
+	varPays   []string // their byte shapes (labels)
 	laterVar  bool     // the first selected variable locator does not resolve but a later one does
 	uris      []string // every URI locator in the log (selected by the filter or not)
 	matchURIs []string // the URI locators the manufacturer filter selects
@@ -691,17 +759,19 @@ func (c *srcCase) logTruth() logTruth {
 		}
 		switch s.Kind {
 		case "raw":
-			lt.locals = append(lt.locals, rawData(s.Idx))
+			lt.locals = append(lt.locals, rawPayloadOf(s))
 			if match {
-				lt.raws = append(lt.raws, rawData(s.Idx))
+				lt.raws = append(lt.raws, rawPayloadOf(s))
+				lt.rawPays = append(lt.rawPays, payLabel(s.Pay))
 			}
 		case "var-ok":
 			if !c.NoReader {
-				lt.locals = append(lt.locals, varPayload(s.Idx))
+				lt.locals = append(lt.locals, varPayloadOf(s))
 			}
 			if match {
 				if !c.NoReader {
-					lt.varOKs = append(lt.varOKs, varPayload(s.Idx))
+					lt.varOKs = append(lt.varOKs, varPayloadOf(s))
+					lt.varPays = append(lt.varPays, payLabel(s.Pay))
 				}
 				if firstVar == nil {
 					firstVar = s
@@ -752,12 +822,42 @@ func member(b []byte, set [][]byte) bool {
 	return false
 }
 
+// alteredOf returns the wanted payload that out is an altered copy of: out is a proper contiguous
+// part of it (something was cut off), it is a proper contiguous part of out (something was added), or
+// out is empty and the payload holds nothing but NULs and white space (everything was stripped).
+func alteredOf(out []byte, want [][]byte) []byte {
+	for _, w := range want {
+		switch {
+		case len(w) == 0 || bytes.Equal(out, w):
+		case len(out) == 0:
+			if len(bytes.Trim(w, "\x00 \t\r\n")) == 0 {
+				return w
+			}
+		case len(out) < len(w) && bytes.Contains(w, out), len(out) > len(w) && bytes.Contains(out, w):
+			return w
+		}
+	}
+	return nil
+}
+
+func clipb(b []byte) []byte {
+	if len(b) > 48 {
+		return append(append([]byte{}, b[:24]...), b[len(b)-24:]...)
+	}
+	return b
+}
+
 func fullLen(tr quoteTruth) bool { return tr.Tech != "" && len(tr.M) == fullLength }
 
 // judged is what judge found out about a case besides the verdicts.
 type judged struct {
 	class   string
 	premise string // which clause of I2 was demanded: "" | raw | variable | entry:<who>:<rendering>[:classifier]
+	// pays: carrier:shape of the payloads I2 demanded byte for byte (carrier raw | variable | entry)
+	pays []string
+	// whose: which attestation decides the object when both a supplied quote and a provider's quote
+	// are there: "" (not both) | supplied/other-measurement | supplied/same-measurement | provider-fallback
+	whose string
 }
 
 // judge checks I1-I3 on one outcome. It returns the violated clauses in the order I1, panic, I2/I3,
@@ -790,12 +890,35 @@ func judge(c *srcCase, o outcome, qt, pt quoteTruth, qb, pb []byte) (vs []verdic
 			allowed[u] = true
 		}
 	}
-	for _, tr := range []quoteTruth{qt, pt} {
-		if fullLen(tr) {
-			allowed[refURL(tr.Tech, tr.M)] = true
+	// The object is a function of the measurement of THE attestation being resolved. A supplied quote
+	// that carries a full-length measurement is that attestation; the local provider's quote (another
+	// VM's measurement, another VM's certificate table) only stands in when the supplied one yields no
+	// full-length measurement (Options.Quote: "If empty, the Provider will be used to get a quote").
+	suppliedDecides := fullLen(qt)
+	provURL := ""
+	if fullLen(pt) {
+		provURL = refURL(pt.Tech, pt.M)
+	}
+	if suppliedDecides {
+		allowed[refURL(qt.Tech, qt.M)] = true
+	} else if provURL != "" {
+		allowed[provURL] = true
+	}
+	if c.Provider == "ok" && len(qb) > 0 {
+		switch {
+		case !suppliedDecides:
+			j.whose = "provider-fallback"
+		case provURL == refURL(qt.Tech, qt.M):
+			j.whose = "supplied/same-measurement"
+		default:
+			j.whose = "supplied/other-measurement"
 		}
 	}
 	for _, u := range o.urls {
+		if suppliedDecides && u == provURL && !allowed[u] {
+			vs = append(vs, verdict{"C16/I1/provider-measurement-fetched-for-supplied-quote", fmt.Sprintf("GET %s: the supplied quote carries a full-length measurement (its object is %s) but the object named after the measurement of the local provider's quote was requested", u, refURL(qt.Tech, qt.M)) + desc()})
+			continue
+		}
 		if key, msg := judgeURLWithLog(u, allowed, logURIs); key != "" {
 			vs = append(vs, verdict{key, msg + desc()})
 		}
@@ -807,12 +930,19 @@ func judge(c *srcCase, o outcome, qt, pt quoteTruth, qb, pb []byte) (vs []verdic
 	provenance := func() [][]byte {
 		prov := append([][]byte{}, o.bodies...)
 		prov = append(prov, lt.locals...)
-		for _, e := range [][]byte{qt.Entry, pt.Entry} {
-			if e != nil {
-				prov = append(prov, e)
-			}
+		if qt.Entry != nil {
+			prov = append(prov, qt.Entry)
+		}
+		// the provider's certificate table is not evidence about a supplied attestation that names its
+		// own measurement
+		if pt.Entry != nil && !suppliedDecides {
+			prov = append(prov, pt.Entry)
 		}
 		return prov
+	}
+	if o.err == nil && suppliedDecides && pt.Entry != nil && bytes.Equal(o.out, pt.Entry) && !member(o.out, provenance()) {
+		vs = append(vs, verdict{"C16/I2/provider-entry-returned-for-supplied-quote", "the supplied quote carries a full-length measurement, so it is the attestation being resolved, yet the certificate-table entry of the local provider's quote (another attestation) came back as its endorsement" + desc()})
+		return vs, j
 	}
 	if c.Force {
 		// I3: a forced fetch that can succeed (working getter, a full-length measurement in the supplied
@@ -839,16 +969,24 @@ func judge(c *srcCase, o outcome, qt, pt quoteTruth, qb, pb []byte) (vs []verdic
 	switch lt.sel {
 	case "raw":
 		want, src, j.premise = lt.raws, "raw locator", "raw"
+		for _, p := range lt.rawPays {
+			j.pays = append(j.pays, "raw:"+p)
+		}
 	case "var-ok":
 		want, src, j.premise = lt.varOKs, "UEFI-variable locator", "variable"
+		for _, p := range lt.varPays {
+			j.pays = append(j.pays, "variable:"+p)
+		}
 	default:
 		if e, how := premiseEntry(c.Quote, qt, qb); len(e) > 0 {
 			want, src, j.premise = [][]byte{e}, "certificate-table entry of the supplied quote", "entry:supplied:"+c.Quote.String()+":"+how
+			j.pays = append(j.pays, "entry:"+payLabel(c.Quote.Pay))
 		} else if how == "ambiguous-unread" {
 			j.premise = "unjudged:supplied:" + c.Quote.String() + ":ambiguous"
 		} else if len(qb) == 0 && c.Provider == "ok" {
 			if e, how := premiseEntry(c.ProviderQuote, pt, pb); len(e) > 0 {
 				want, src, j.premise = [][]byte{e}, "certificate-table entry of the provider's quote", "entry:provider:"+c.ProviderQuote.String()+":"+how
+				j.pays = append(j.pays, "entry:"+payLabel(c.ProviderQuote.Pay))
 			} else if how == "ambiguous-unread" {
 				j.premise = "unjudged:provider:" + c.ProviderQuote.String() + ":ambiguous"
 			}
@@ -868,7 +1006,11 @@ func judge(c *srcCase, o outcome, qt, pt quoteTruth, qb, pb []byte) (vs []verdic
 			}
 			vs = append(vs, verdict{key, fmt.Sprintf("no forced fetch and local evidence exists (%s) but the getter was used", src) + desc()})
 		} else if o.err != nil || !member(o.out, want) {
-			vs = append(vs, verdict{"C16/I2/local-evidence-not-returned", fmt.Sprintf("no forced fetch and local evidence exists (%s = %q) but it was not what came back", src, clip(want[0])) + desc()})
+			key, how := "C16/I2/local-evidence-not-returned", "it was not what came back"
+			if w := alteredOf(o.out, want); o.err == nil && w != nil {
+				key, how = "C16/I2/local-evidence-not-byte-for-byte", fmt.Sprintf("what came back is an altered copy of it (%d bytes %x, the evidence has %d bytes %x)", len(o.out), clipb(o.out), len(w), clipb(w))
+			}
+			vs = append(vs, verdict{key, fmt.Sprintf("no forced fetch and local evidence exists (%s = %q) but %s", src, clip(want[0]), how) + desc()})
 		}
 		return vs, j
 	}
@@ -914,7 +1056,7 @@ func report(t ev.TB, vs []verdict) bool {
 	return len(vs) > 0
 }
 
-const srcRule = "extract.Endorsement (and, for a third of the cases, the CLI `extract` command through VerifMakeRoot, with Backend.Provider nil when there is no provider) on: event log {absent, missing file, directory, garbage, empty file, valid log} where a valid log holds SP800-155 events with raw / resolvable variable / unresolvable variable / malformed variable / local / URI / unknown-type locators, measured (non-informational) SP800-155 payloads and filler events, each with the GCE firmware manufacturer string, a foreign one or a near miss of the GCE one (prefix, superstring, other case, trailing blank) and sometimes a platform manufacturer string that says the opposite, under manufacturer filter {GCE, any, foreign, a near miss, one no event carries}; supplied quote {none, empty, garbage pool, SEV-SNP as go-tpm-tools wrapper / sevsnp.Attestation / sevsnp.Report / raw report+cert table / raw report / hex / base64, bare cert table, TDX raw / wrapper / hex} with the GCE cert-table entry present or not and measurement lengths {48, 0, 1, 32, 47, 49, 64} where the format can carry them; provider {absent, failing, returning any of those}; getter {absent, failing, recording}; forced fetch on/off; UEFI variable reader configured (real efivarfs reader on a scratch root with a fixed pool of variables) or not (library: nil; CLI: no MakeEfiVariableReader). Oracle: I1 every requested URL is bucket+ovmf_x64_csm/<tech>/<hex>.binarypb of a 48-byte measurement the harness put into the supplied or provider quote, or - only without forced fetch and only when a URI locator is what the log selects (first kind in raw>variable>local>URI that has an event passing the filter, compared by exact equality on the FIRMWARE manufacturer) - one of the selected URI locators (root-cause keys: empty object name, short measurement, eventlog-uri-not-selected, unrelated); I2 without forced fetch, if the log selects a raw locator the result is one of the selected raw payloads, if it selects a variable locator and the first one resolves the result is the payload (file minus 4-byte header) of a selected resolvable variable, else if the supplied quote (or, with no supplied quote, the provider's) carries the GCE cert-table entry BY CONSTRUCTION of the rendering (only for a serialized sevsnp.Attestation with a measurement that is not 48 bytes, which the repository documents it refuses, the repository's own classification decides) the result is that entry (or, when the first variable locator did not resolve, the payload of a later one that does) - and in all these situations the getter log is empty; I3 with forced fetch, a working getter and a full-length measurement in the supplied quote (or else the provider's) a success is a body returned by a request of this run; in every other situation a success is a fetched body or one of the local payloads; no panic (a log that selects a variable locator while no reader is configured is counted as inconclusive: totality is C07's). non-trivial = >=2 sources present or forced fetch; distinct = the case"
+const srcRule = "extract.Endorsement (and, for a third of the cases, the CLI `extract` command through VerifMakeRoot, with Backend.Provider nil when there is no provider) on: event log {absent, missing file, directory, garbage, empty file, valid log} where a valid log holds SP800-155 events with raw / resolvable variable / unresolvable variable / malformed variable / local / URI / unknown-type locators, measured (non-informational) SP800-155 payloads and filler events, each with the GCE firmware manufacturer string, a foreign one or a near miss of the GCE one (prefix, superstring, other case, trailing blank) and sometimes a platform manufacturer string that says the opposite, under manufacturer filter {GCE, any, foreign, a near miss, one no event carries}; supplied quote {none, empty, garbage pool, SEV-SNP as go-tpm-tools wrapper / sevsnp.Attestation / sevsnp.Report / raw report+cert table / raw report / hex / base64, bare cert table, TDX raw / wrapper / hex} with the GCE cert-table entry present or not - a third of the raw payloads, of the variables behind resolvable variable locators and of the cert-table entries in one of the byte shapes of sources/verbatim (trailing / leading / embedded NUL, white space at either end, 0xff, BOM, serialized endorsement ending in 0x00, hex / base64 text, long, drawn bytes) instead of plain text - and measurement lengths {48, 0, 1, 32, 47, 49, 64} where the format can carry them; provider {absent, failing, returning any of those}; getter {absent, failing, recording}; forced fetch on/off; UEFI variable reader configured (real efivarfs reader on a scratch root with a fixed pool of variables) or not (library: nil; CLI: no MakeEfiVariableReader). Oracle: I1 every requested URL is bucket+ovmf_x64_csm/<tech>/<hex>.binarypb of a 48-byte measurement the harness put into the supplied or provider quote, or - only without forced fetch and only when a URI locator is what the log selects (first kind in raw>variable>local>URI that has an event passing the filter, compared by exact equality on the FIRMWARE manufacturer) - one of the selected URI locators (root-cause keys: empty object name, short measurement, eventlog-uri-not-selected, unrelated); I2 without forced fetch, if the log selects a raw locator the result is one of the selected raw payloads, if it selects a variable locator and the first one resolves the result is the payload (file minus 4-byte header) of a selected resolvable variable, else if the supplied quote (or, with no supplied quote, the provider's) carries the GCE cert-table entry BY CONSTRUCTION of the rendering (only for a serialized sevsnp.Attestation with a measurement that is not 48 bytes, which the repository documents it refuses, the repository's own classification decides) the result is that entry (or, when the first variable locator did not resolve, the payload of a later one that does) - and in all these situations the getter log is empty; WHOSE measurement: a supplied quote that carries a full-length measurement is the attestation being resolved (Options.Quote: the provider is used when it is empty), so with such a quote the only measurement-derived URL that may be requested is ITS object, never the object of the provider's measurement (key I1/provider-measurement-fetched-for-supplied-quote), and the provider's cert-table entry is no evidence for it and must not come back as the result (key I2/provider-entry-returned-for-supplied-quote), forced or not, whether or not the supplied quote has an entry of its own; the provider's measurement / entry only count when the supplied quote is absent, empty, unreadable or without a full-length measurement (classes attestation-decided-by:supplied/other-measurement | supplied/same-measurement | provider-fallback); I3 with forced fetch, a working getter and a full-length measurement in the supplied quote (or else the provider's) a success is a body returned by a request of this run; in every other situation a success is a fetched body or one of the local payloads; no panic (a log that selects a variable locator while no reader is configured is counted as inconclusive: totality is C07's). non-trivial = >=2 sources present or forced fetch; distinct = the case"
 
 func evalCase(t ev.TB, name string, c *srcCase, env *srcEnv) {
 	o, qt, pt, qb, pb := runCase(c, env)
@@ -925,6 +1067,10 @@ func evalCase(t ev.TB, name string, c *srcCase, env *srcEnv) {
 		class = "known-violation/" + strings.TrimPrefix(vs[0].Key, "C16/")
 	}
 	nontrivial := c.sources() >= 2 || c.Force
+	for _, p := range j.pays {
+		// a payload that is not plain text, demanded back byte for byte
+		nontrivial = nontrivial || !strings.HasSuffix(p, ":text")
+	}
 	ev.Case(name, nontrivial, c.String(), class, func() any {
 		return map[string]any{"case": c, "log_offers": lt.sel, "result": clip(o.out), "error": fmt.Sprint(o.err), "requests": o.urls, "provider_calls": o.provCalls}
 	})
@@ -934,6 +1080,20 @@ func evalCase(t ev.TB, name string, c *srcCase, env *srcEnv) {
 	ev.Class(name, "getter:"+c.Getter)
 	if j.premise != "" {
 		ev.Class(name, "I2-premise/"+j.premise)
+	}
+	seenPay := map[string]bool{}
+	for _, p := range j.pays {
+		if !seenPay[p] {
+			seenPay[p] = true
+			ev.Class(name, "I2-payload/"+p)
+		}
+	}
+	if j.whose != "" {
+		ev.Class(name, "attestation-decided-by:"+j.whose)
+		if o.provCalls > 0 && strings.HasPrefix(j.whose, "supplied/") {
+			// not judged (asking is not using), but worth seeing in the evidence
+			ev.Class(name, "provider-consulted-although-supplied-quote-decides")
+		}
 	}
 	if lt.nearMiss {
 		ev.Class(name, "manufacturer:near-miss-in-log")
@@ -975,6 +1135,9 @@ func genQuote(t *rapid.T, label string, allowNone bool) quoteSpec {
 	case "certtable":
 		q.Entry = rapid.Bool().Draw(t, label+"Entry")
 	}
+	if q.Entry && rapid.IntRange(0, 2).Draw(t, label+"Shaped") == 0 {
+		q.Pay = genPay(t, label+"Pay")
+	}
 	if (q.Kind == "snp" || q.Kind == "tdx") && rapid.IntRange(0, 3).Draw(t, label+"Short") == 0 {
 		q.MLen = rapid.SampledFrom(shortLens).Draw(t, label+"MLen")
 	}
@@ -994,6 +1157,9 @@ func genEvent(t *rapid.T) evtSpec {
 		s.Match = true
 	case "near":
 		s.Man = rapid.SampledFrom(nearMisses).Draw(t, "evNearMiss")
+	}
+	if (s.Kind == "raw" || s.Kind == "var-ok") && rapid.IntRange(0, 2).Draw(t, "evShaped") == 0 {
+		s.Pay = genPay(t, "evPay")
 	}
 	if rapid.IntRange(0, 3).Draw(t, "evPlat") == 0 {
 		// a platform manufacturer that says the opposite of the firmware manufacturer
